@@ -126,7 +126,8 @@ impl CoreDID {
 
   /// Validates whether a string is a valid [`DID`] method name.
   pub fn valid_method_name(value: &str) -> Result<(), Error> {
-    if !value.chars().all(is_char_method_name) {
+    // method-name = 1*method-char
+    if value.is_empty() || !value.chars().all(is_char_method_name) {
       return Err(Error::InvalidMethodName);
     }
     Ok(())
@@ -143,18 +144,22 @@ impl CoreDID {
 
   /// Validates whether a string is a valid [`DID`] method-id.
   pub fn valid_method_id(value: &str) -> Result<(), Error> {
+    // method-specific-id = *( *idchar ":" ) 1*idchar
+    if value.is_empty() {
+      return Err(Error::InvalidMethodId);
+    }
+
     // if !value.chars().all(is_char_method_id) {
     //   return Err(Error::InvalidMethodId);
     // }
     let mut chars = value.chars();
     while let Some(c) = chars.next() {
       match c {
-        '%' => {
-          let digits = chars.clone().take(2).collect::<String>();
-          u8::from_str_radix(&digits, 16).map_err(|_| Error::InvalidMethodId)?;
-          chars.next();
-          chars.next();
-        }
+        // pct-encoded = "%" HEXDIG HEXDIG
+        '%' => match (chars.next(), chars.next()) {
+          (Some(first), Some(second)) if first.is_ascii_hexdigit() && second.is_ascii_hexdigit() => (),
+          _ => return Err(Error::InvalidMethodId),
+        },
         c if is_char_method_id(c) => (),
         _ => return Err(Error::InvalidMethodId),
       }
